@@ -245,19 +245,26 @@ func parseExpressionLv3(p *ParserZH, cfg syntax.EqMarkConfig) syntax.Expression 
 		TypeLogicNoW:    syntax.LogicXNEQ,
 	}
 
-	exprL := parseExpressionLv4(p, cfg)
-	if match, tk := p.tryConsume(validTypes...); match {
-		exprR := parseExpressionLv4(p, cfg)
-		finalExpr := &syntax.LogicExpr{
-			Type:      logicTypeMap[tk.Type],
-			LeftExpr:  exprL,
-			RightExpr: exprR,
-		}
+	// comparisons of one level associate from left to right, like every other level
+	var parseTail func(syntax.Expression) syntax.Expression
 
-		p.setStmtCurrentLine(finalExpr, tk)
-		return finalExpr
+	parseTail = func(el syntax.Expression) syntax.Expression {
+		if match, tk := p.tryConsume(validTypes...); match {
+			exprR := parseExpressionLv4(p, cfg)
+			finalExpr := &syntax.LogicExpr{
+				Type:      logicTypeMap[tk.Type],
+				LeftExpr:  el,
+				RightExpr: exprR,
+			}
+
+			p.setStmtCurrentLine(finalExpr, tk)
+			return parseTail(finalExpr)
+		}
+		return el
 	}
-	return exprL
+
+	exprL := parseExpressionLv4(p, cfg)
+	return parseTail(exprL)
 }
 
 // parseExpressionLv4 - X 设为 Y
